@@ -130,6 +130,17 @@ def handle (kind : String) (args : List String) (impl : String) : String :=
           else ""
         let ss := if sp == "" then "" else s!"SPEC {sp} impl={impl}"
         if d == "" && ss == "" then "ok" else d ++ (if d != "" && ss != "" then " ; " else "") ++ ss
+  | "c09.burst", [lim, n, rounds] =>
+    match lim.toNat?, n.toNat?, rounds.toNat? with
+    | some limit, some n, some rounds =>
+      -- `limit_never_exceeded` / `under_limit_served`: with every connection held, exactly min(n, limit) are served
+      let k := if limit == 0 then n else min n limit
+      let m := "served=" ++ ",".intercalate (List.replicate rounds (toString k))
+      let over := (((impl.drop 7).toString.splitOn ",").filterMap String.toNat?).any (fun s => limit != 0 && s > limit)
+      let d := if impl == m then "" else s!"DIFF model={m} impl={impl}"
+      let ss := if over then s!"SPEC more-connections-served-than-the-limit impl={impl}" else ""
+      if d == "" && ss == "" then "ok" else d ++ (if d != "" && ss != "" then " ; " else "") ++ ss
+    | _, _, _ => "bad-op"
   | _, _ => "bad-op"
 
 end SamVerif.Drive.C09
